@@ -41,7 +41,7 @@ def budget(tier):
 @st.composite
 def base_array(draw, str_ok=True, vks="ffi", max_dims=4):
     nd = draw(st.integers(1, max_dims))
-    dims = list(draw(st.permutations(gen.NAMES)))[:nd]
+    dims = list(draw(st.permutations(draw(gen.names_pool()))))[:nd]
     ax = draw(st.integers(0, nd - 1))
     labels = []
     for i in range(nd):
@@ -53,6 +53,7 @@ def base_array(draw, str_ok=True, vks="ffi", max_dims=4):
         spec["vals"] = [k / 4.0 for k in draw(st.lists(st.integers(-20, 20), min_size=ncell, max_size=ncell))]
     else:
         spec["vals"] = draw(st.lists(st.integers(-4, 6), min_size=ncell, max_size=ncell))
+    spec["hist"] = draw(gen.history(labels))
     return spec, ax
 
 
